@@ -269,6 +269,14 @@ func (x *run) step(op *Op) {
 	var err error
 	var wipe *Diff
 	switch {
+	case (cfg.C05 || cfg.C04) && op.Kind == "convert" && wasUnlocked:
+		// converting an UNLOCKED manager must lock it and wipe what it held
+		wipe, err = w.LockAndCheckWipe(func() error { return x.exec(op) }, x.st)
+		if err == nil && !w.M.IsLocked() {
+			x.fail(df("c05:not-locked-after-conversion", "after ConvertToWatchingOnly of an unlocked manager IsLocked() is false"))
+			return
+		}
+		x.st["c05-conversions-of-an-unlocked-manager-wipe-checked"]++
 	case cfg.C05 && (op.Kind == "lock" || op.Kind == "unlock-wrong") && wasUnlocked:
 		// capture clear-text buffers, lock, demand they are wiped
 		wipe, err = w.LockAndCheckWipe(func() error { return x.exec(op) }, x.st)
